@@ -393,6 +393,7 @@ class FnCtx:
         self.free_vars = {}
         self.yield_type = None
         self.mutated_params = set()
+        self.call_exceptions = []
 
     # ---------------------------------------------------------------- signature
     def _signature(self):
@@ -621,9 +622,14 @@ class FnCtx:
         else:
             self.ex.assume(fn(self.res))
 
-    def raises(self, exc, when=None, name=None):
-        """Exception `exc` may propagate; if `when` is given it must hold where raised."""
+    def raises(self, exc, when=None, name=None, at_call=False):
+        """Exception `exc` may propagate; if `when` is given it must hold where raised.
+        at_call=True: callers see this outcome too -- at a call site the path splits into the normal
+        return (postconditions assumed) and `raise exc` (with `when` assumed); without it a call is
+        modelled by its normal return only."""
         self.exc_rules[exc] = (when, name or exc)
+        if at_call and self.mode == "call":
+            self.call_exceptions.append((exc, when))
 
     def invariant(self, lid, fn):
         self.invariants[lid] = fn
@@ -686,7 +692,21 @@ class FnCtx:
 
     # ---------------------------------------------------------------- running
     def run_call(self):
+        from .engine import RaiseEx
+
+        nh = len(self.ex.hyps)
         self.spec.fn(self)
+        if self.call_exceptions:
+            # outcomes of the call: 0 = normal return, k = the k-th declared exception.  The facts
+            # assumed for the normal return (postconditions) do not hold on an exceptional path.
+            k = self.ex.choose(1 + len(self.call_exceptions))
+            if k > 0:
+                exc, when = self.call_exceptions[k - 1]
+                del self.ex.hyps[nh:]
+                if when is not None:
+                    self.ex.assume(when())
+                self.ex.prune_if_infeasible()
+                raise RaiseEx(exc, getattr(self.node, "lineno", 0))
         return self.res if self.res is not None else NONE
 
 
